@@ -114,12 +114,27 @@ def handle (args : List String) (impl : List String) : String :=
           match firstBad tolEntry (maxQ 1 B.maxAbs) B rhs with
           | some (i, j) => s!"bad stage=rhs entry=({i},{j}) model={fmtRat (B.get i j)} impl={fmtRat (rhs.get i j)}"
           | none =>
-          -- weights solve the system the library assembled (backward-error certificate)
-          if !((List.range k.nvar).all fun a => checkSolve tolSolve lhs (col wgt a) (col rhs a)) then "bad stage=weights-residual"
+          -- weights solve the system the library assembled (backward-error certificate).  The library solves
+          -- through the inverse matrix, whose residual grows with the condition number ("round-off proportional
+          -- to the conditioning of the system"): when the base tolerance fails, the exact condition number
+          -- kappa = |A| |A^-1| (infinity norms) is measured and 2^-44 kappa (about 500 units of round-off times
+          -- kappa) is allowed instead
+          let baseOK := (List.range k.nvar).all (fun a => checkSolve tolSolve lhs (col wgt a) (col rhs a)) &&
+                        (zam.length = nred && checkSolve tolSolve lhs zam (zext k))
+          let tolS : Q := if baseOK then tolSolve else
+            match lhs.cond? with
+            | some kappa => maxQ tolSolve (pow2 (-44) * kappa)
+            | none => tolSolve
+          if tolS ≥ pow2 (-8) then "skip ill-conditioned-system (condition number above 2^36)" else
+          if !((List.range k.nvar).all fun a => checkSolve tolS lhs (col wgt a) (col rhs a)) then "bad stage=weights-residual"
           else if zam.length ≠ nred then "bad-op"
-          else if !(checkSolve tolSolve lhs zam (zext k)) then "bad stage=dual-residual"
+          else if !(checkSolve tolS lhs zam (zext k)) then "bad stage=dual-residual"
           else
-            let scz := maxQ 1 (vmaxAbs (k.z.map (·.getD 0)) + vmaxAbs k.mean)
+            -- the outputs are scalar products: their round-off is relative to the size of the terms added
+            let termsOf := fun (x y : List Q) => (List.zipWith (fun a b => absQ (a * b)) x y).sum
+            let tolSolve := tolS
+            let scz := maxQ 1 (vmaxAbs (k.z.map (·.getD 0)) + vmaxAbs k.mean) +
+                       (List.range k.nvar).foldl (fun m a => maxQ m (termsOf (col (rhsC k) a) zam)) 0
             let badEst := (List.range k.nvar).find? fun a =>
               match est.getD a none with
               | some e => !(absQ (e - estimate k zam a) ≤ tolSolve * scz * (nred + 1 : Nat))
@@ -131,7 +146,7 @@ def handle (args : List String) (impl : List String) : String :=
               match std.getD a none with
               | some s =>
                 let v := variance k wgt a
-                let scv := maxQ 1 (absQ (k.C00.get a a))
+                let scv := maxQ 1 (absQ (k.C00.get a a)) + termsOf (col (rhsC k) a) (col wgt a)
                 if s < 0 then true
                 else if v > tolSolve * scv then !(absQ (s * s - v) ≤ tolSolve * scv * 4)
                 else !(s * s ≤ tolSolve * scv * 4)
@@ -143,7 +158,7 @@ def handle (args : List String) (impl : List String) : String :=
               | some vz =>
                 let badVz := (List.range k.nvar).find? fun a =>
                   match vz.getD a none with
-                  | some v => !(absQ (v - varZ k wgt a) ≤ tolSolve * maxQ 1 (absQ (k.C00.get a a)) * 4)
+                  | some v => !(absQ (v - varZ k wgt a) ≤ tolSolve * (maxQ 1 (absQ (k.C00.get a a)) + termsOf (col (rhsC k) a) (col wgt a)) * 4)
                   | none => true
                 (match badVz with
                  | some a => s!"bad stage=varz var={a} model={fmtRat (varZ k wgt a)}"
